@@ -1,2 +1,215 @@
+//! C19: field maps of the CREATE TABLE builder, extracted from the program text.
+//!  * fields of `CreateTable` (src/ast/dml.rs) and `CreateTableBuilder`
+//!  * map of `build()`          : statement field <- builder field
+//!  * map of `try_from`         : builder field   <- statement field (through the pattern bindings)
+//!  * setters                   : (name, assigned field, rhs is exactly the one parameter, returns self)
+//!  * `_` arm of try_from returns Err(..) (no panic/unreachable)
+use crate::leanout::lean_str;
 use crate::*;
-pub fn run(_repo: &Path, _out: &Path) -> Result<(), String> { Ok(()) }
+use syn::visit::Visit;
+
+fn struct_fields(file: &syn::File, name: &str) -> Option<Vec<String>> {
+    for it in &file.items {
+        if let syn::Item::Struct(s) = it {
+            if s.ident == name {
+                return Some(s.fields.iter().filter_map(|f| f.ident.as_ref().map(|i| i.to_string())).collect());
+            }
+        }
+    }
+    None
+}
+
+/// `self.x` -> Some("x")
+fn self_field(e: &syn::Expr) -> Option<String> {
+    if let syn::Expr::Field(f) = e {
+        if let syn::Expr::Path(p) = &*f.base {
+            if p.path.is_ident("self") {
+                if let syn::Member::Named(n) = &f.member {
+                    return Some(n.to_string());
+                }
+            }
+        }
+    }
+    None
+}
+
+fn path_ident(e: &syn::Expr) -> Option<String> {
+    if let syn::Expr::Path(p) = e {
+        return p.path.get_ident().map(|i| i.to_string());
+    }
+    None
+}
+
+struct FindStruct<'a> {
+    name: &'a str,
+    found: Vec<syn::ExprStruct>,
+}
+impl<'a, 'ast> Visit<'ast> for FindStruct<'a> {
+    fn visit_expr_struct(&mut self, s: &'ast syn::ExprStruct) {
+        if s.path.segments.last().map(|x| x.ident == self.name).unwrap_or(false) {
+            self.found.push(s.clone());
+        }
+        syn::visit::visit_expr_struct(self, s);
+    }
+}
+
+struct FindPatStruct {
+    found: Vec<syn::PatStruct>,
+}
+impl<'ast> Visit<'ast> for FindPatStruct {
+    fn visit_pat_struct(&mut self, s: &'ast syn::PatStruct) {
+        if s.path.segments.last().map(|x| x.ident == "CreateTable").unwrap_or(false) {
+            self.found.push(s.clone());
+        }
+        syn::visit::visit_pat_struct(self, s);
+    }
+}
+
+pub fn run(repo: &Path, out: &Path) -> Result<(), String> {
+    let dml = syn::parse_file(&fs::read_to_string(repo.join("src/ast/dml.rs")).map_err(|e| e.to_string())?).map_err(|e| e.to_string())?;
+    let hb = syn::parse_file(&fs::read_to_string(repo.join("src/ast/helpers/stmt_create_table.rs")).map_err(|e| e.to_string())?).map_err(|e| e.to_string())?;
+    let stmt_fields = struct_fields(&dml, "CreateTable").ok_or("struct CreateTable not found")?;
+    let b_fields = struct_fields(&hb, "CreateTableBuilder").ok_or("struct CreateTableBuilder not found")?;
+    let id_of = |n: &str| -> usize { stmt_fields.iter().position(|x| x == n).unwrap_or_else(|| 1000 + b_fields.iter().position(|x| x == n).unwrap_or(999)) };
+
+    let mut build_map: Vec<(usize, usize)> = vec![]; // (stmt field, builder field read) ; 9999 = not a plain self.field
+    let mut try_map: Vec<(usize, usize)> = vec![]; // (builder field, stmt field)
+    let mut setters: Vec<(String, usize, bool)> = vec![];
+    let mut setter_src: Vec<(String, String, String)> = vec![]; // (name, field, param type) for harness codegen
+    let mut wildcard_err = false;
+    let mut new_defaults: Vec<(usize, String)> = vec![];
+
+    for it in &hb.items {
+        match it {
+            syn::Item::Impl(im) if im.trait_.is_none() => {
+                for ii in &im.items {
+                    if let syn::ImplItem::Fn(f) = ii {
+                        let name = f.sig.ident.to_string();
+                        if name == "build" {
+                            let mut fs_ = FindStruct { name: "CreateTable", found: vec![] };
+                            fs_.visit_block(&f.block);
+                            let s = fs_.found.first().ok_or("build(): no CreateTable literal")?;
+                            if s.rest.is_some() {
+                                build_map.push((9998, 9998));
+                            }
+                            for fv in &s.fields {
+                                if let syn::Member::Named(n) = &fv.member {
+                                    let src = self_field(&fv.expr).map(|x| id_of(&x)).unwrap_or(9999);
+                                    build_map.push((id_of(&n.to_string()), src));
+                                }
+                            }
+                        } else if name == "new" {
+                            let mut fs_ = FindStruct { name: "Self", found: vec![] };
+                            fs_.visit_block(&f.block);
+                            if let Some(s) = fs_.found.first() {
+                                for fv in &s.fields {
+                                    if let syn::Member::Named(n) = &fv.member {
+                                        let e = &fv.expr;
+                                        new_defaults.push((id_of(&n.to_string()), quote::quote!(#e).to_string()));
+                                    }
+                                }
+                            }
+                        } else if f.sig.inputs.len() == 2 {
+                            // setter shape: (mut self, p: T) -> Self { self.F = p; self }
+                            let (pname, pty) = match &f.sig.inputs[1] {
+                                syn::FnArg::Typed(pt) => (
+                                    if let syn::Pat::Ident(pi) = &*pt.pat { pi.ident.to_string() } else { String::new() },
+                                    { let t = &pt.ty; quote::quote!(#t).to_string() },
+                                ),
+                                _ => (String::new(), String::new()),
+                            };
+                            let stmts = &f.block.stmts;
+                            let mut field = None;
+                            let mut simple = false;
+                            if stmts.len() == 2 {
+                                if let syn::Stmt::Expr(syn::Expr::Assign(a), Some(_)) = &stmts[0] {
+                                    field = self_field(&a.left);
+                                    simple = path_ident(&a.right).map(|x| x == pname).unwrap_or(false);
+                                }
+                                if let syn::Stmt::Expr(e, None) = &stmts[1] {
+                                    simple = simple && path_ident(e).map(|x| x == "self").unwrap_or(false);
+                                } else {
+                                    simple = false;
+                                }
+                            }
+                            let fid = field.as_deref().map(|x| id_of(x)).unwrap_or(9999);
+                            setters.push((name.clone(), fid, simple));
+                            if let Some(fl) = field {
+                                setter_src.push((name, fl, pty));
+                            }
+                        }
+                    }
+                }
+            }
+            syn::Item::Impl(im) if im.trait_.as_ref().map(|t| t.1.segments.last().unwrap().ident == "TryFrom").unwrap_or(false) => {
+                for ii in &im.items {
+                    if let syn::ImplItem::Fn(f) = ii {
+                        if f.sig.ident != "try_from" {
+                            continue;
+                        }
+                        // pattern bindings: stmt field -> variable
+                        let mut fp = FindPatStruct { found: vec![] };
+                        fp.visit_block(&f.block);
+                        let ps = fp.found.first().ok_or("try_from: no CreateTable pattern")?;
+                        let mut var_of: Map<String, String> = Map::new(); // variable -> stmt field
+                        for fpat in &ps.fields {
+                            if let syn::Member::Named(n) = &fpat.member {
+                                let var = match &*fpat.pat {
+                                    syn::Pat::Ident(pi) => pi.ident.to_string(),
+                                    _ => "?".to_string(),
+                                };
+                                var_of.insert(var, n.to_string());
+                            }
+                        }
+                        let mut fs_ = FindStruct { name: "Self", found: vec![] };
+                        fs_.visit_block(&f.block);
+                        let s = fs_.found.first().ok_or("try_from: no Self literal")?;
+                        for fv in &s.fields {
+                            if let syn::Member::Named(n) = &fv.member {
+                                let src = path_ident(&fv.expr).and_then(|v| var_of.get(&v).cloned()).map(|x| id_of(&x)).unwrap_or(9999);
+                                try_map.push((id_of(&n.to_string()), src));
+                            }
+                        }
+                        // the wildcard arm must be `_ => Err(...)`
+                        struct Arms(bool);
+                        impl<'ast> Visit<'ast> for Arms {
+                            fn visit_arm(&mut self, a: &'ast syn::Arm) {
+                                if matches!(a.pat, syn::Pat::Wild(_)) {
+                                    if let syn::Expr::Call(c) = &*a.body {
+                                        if path_ident(&c.func).map(|x| x == "Err").unwrap_or(false) {
+                                            self.0 = true;
+                                        }
+                                    }
+                                }
+                                syn::visit::visit_arm(self, a);
+                            }
+                        }
+                        let mut ar = Arms(false);
+                        ar.visit_block(&f.block);
+                        wildcard_err = ar.0;
+                    }
+                }
+            }
+            _ => {}
+        }
+    }
+
+    // ---- Lean
+    let pairs = |v: &Vec<(usize, usize)>| format!("[{}]", v.iter().map(|(a, b)| format!("({a},{b})")).collect::<Vec<_>>().join(","));
+    let mut o = String::new();
+    o.push_str("/- GENERATED by `translator builder` from src/ast/dml.rs and src/ast/helpers/stmt_create_table.rs. Do not edit.\n   Field ids = position in `struct CreateTable`; 1000+k = builder-only field k; 9999 = not a plain field copy. -/\nnamespace SqlVerif.Gen.Builder\n\n");
+    o.push_str(&format!("def nFields : Nat := {}\n", stmt_fields.len()));
+    o.push_str(&format!("def stmtFieldNames : List String := [{}]\n", stmt_fields.iter().map(|s| lean_str(s)).collect::<Vec<_>>().join(", ")));
+    o.push_str(&format!("def builderFieldIds : List Nat := [{}]\n", b_fields.iter().map(|s| id_of(s).to_string()).collect::<Vec<_>>().join(",")));
+    o.push_str(&format!("/-- `build()`: (statement field, builder field it is read from) -/\ndef buildMap : List (Nat × Nat) := {}\n", pairs(&build_map)));
+    o.push_str(&format!("/-- `try_from`: (builder field, statement field it is read from) -/\ndef tryFromMap : List (Nat × Nat) := {}\n", pairs(&try_map)));
+    o.push_str(&format!("/-- setters: (assigned field, body is exactly `self.f = param; self`) -/\ndef setters : List (Nat × Bool) := [{}]\n", setters.iter().map(|(_, f, s)| format!("({f},{s})")).collect::<Vec<_>>().join(",")));
+    o.push_str(&format!("def setterNames : List String := [{}]\n", setters.iter().map(|(n, _, _)| lean_str(n)).collect::<Vec<_>>().join(", ")));
+    o.push_str(&format!("/-- the `_` arm of `try_from` is `Err(..)` -/\ndef wildcardArmIsErr : Bool := {}\n", wildcard_err));
+    o.push_str(&format!("/-- fields given a default by `new()` -/\ndef newDefaultIds : List Nat := [{}]\n", new_defaults.iter().map(|(i, _)| i.to_string()).collect::<Vec<_>>().join(",")));
+    o.push_str("\nend SqlVerif.Gen.Builder\n");
+    write_if_changed(&out.join("lean/Builder.lean"), &o);
+    let j = serde_json::json!({"stmt_fields": stmt_fields, "builder_fields": b_fields, "setters": setter_src, "new_defaults": new_defaults});
+    write_if_changed(&out.join("builder.json"), &serde_json::to_string_pretty(&j).unwrap());
+    Ok(())
+}
